@@ -678,4 +678,4 @@ EVIDENCE = {"C18": {
                     "trim ties (time exactly between two samples) accept either neighbour",
                     "start >= end or an interval shorter than one sample is outside the judged domain"],
 }}
-REQUIRED_PROBES = {"C18": ["roundtrip_judged", "trim_judged", "split_created"]}
+REQUIRED_PROBES = {"C18": ["roundtrip_judged", "trim_judged", "split_created", "time_step_corrected_in_place", "crash_restart"]}
